@@ -85,7 +85,7 @@ def scenarios(tier, seed):
         nodes, parents = C.SHAPES[sname]
         for card in C.card_options(nodes, tier)[:2]:
             card = {v: max(2, c) for v, c in card.items()}
-            for style in C.STATE_STYLES + ["permrange"]:
+            for style in C.STATE_STYLES:
                 k += 1
                 out.append(dict(family="gibbs/bn", mode="gibbs", kind="bn", nodes=nodes, parents=parents, card=card, states=style, names="str", hashseed=k % 2))
     for mname in ["mchain3", "mtri", "mpair_unary"]:
